@@ -79,7 +79,10 @@ MODULE_IMPORTS = [
     ([_SUBI], "from . import b", "b.X"), ([_SUBI], "from . import b as m", "m.X"), ([_SUBI, _B], "from .. import a as m", "m.X"), ([_SUBI, _B], "from .. import a", "a.X"),
     ([_B], "from .. import sub as s", "s.X"), ([_A, _SUBI, _B], "import pkg.a as m", "m.X"), ([_INIT, _SUBI, _B], "from pkg import a as m", "m.X"),
     ([_INIT, _A, _B], "from pkg import sub as s", "s.X"), ([_INIT, _A, _SUBI], "from pkg.sub import b as m", "m.X"), ([_INIT, _A], "import pkg.sub.b as m", "m.X.N"),
-    ([_INIT, _A, _SUBI, _B], "import ext as e", "e.Y"), ([_INIT, _A, _SUBI, _B], "import ext as e, ext as e2", "e2.Y"),
+    # several names in one statement: every one of them is bound, whatever is done with its neighbours
+    ([_INIT], "from . import a, sub as s", "s.X"), ([_INIT], "from . import a, sub as s", "a.X"), ([_INIT], "from . import sub as s, a", "s.X.N"), ([_INIT], "from . import a as m, sub", "sub.X"),
+    ([_SUBI], "from . import b, b as m", "m.X"), ([_SUBI, _B], "from .. import a, sub as s", "s.X"), ([_INIT, _A], "from .sub import b, X as Z", "Z.N"), ([_INIT, _A, _SUBI, _B], "from ext import X, Y as Z", "Z"),
+    ([_INIT, _A, _SUBI, _B], "import ext, ext as e3", "e3.Y"), ([_INIT, _A, _SUBI, _B], "import ext as e", "e.Y"), ([_INIT, _A, _SUBI, _B], "import ext as e, ext as e2", "e2.Y"),
 ]
 UNBOUND = [("builtin", "int"), ("unknown", "Unknown"), ("unknown-attr", "Unknown.attr"), ("parent-package-name", "sub"), ("top-package-name-attr", "pkg.X")]
 
